@@ -173,6 +173,9 @@ fn run_div<N: Sc>(rep: &mut Report, c: &DivCase) {
     };
     let ta = c.tol_a.unwrap_or(DEFAULT_TOL);
     let allow = tol_allow(c.complex, ta);
+    if c.tol_a == Some(0.0) {
+        rep.count("dividends_with_zero_tolerance_exactly_0", 1);
+    }
     rep.eval();
     rep.count(&format!("{}/{}", c.kind.name(), fld), 1);
     let res = match guard(|| pa.divide(&pd)) {
@@ -308,6 +311,10 @@ fn run_div<N: Sc>(rep: &mut Report, c: &DivCase) {
 }
 
 fn run_dyn(rep: &mut Report, c: &DivCase) {
+    // (diagnosis of a case that never returns: the inputs are otherwise only reported afterwards)
+    if std::env::var_os("VERIF_PRINT_CASE").is_some() {
+        eprintln!("CASE {}", c.to_json().to_string_compact());
+    }
     if c.complex {
         run_div::<C64>(rep, c)
     } else {
@@ -322,7 +329,9 @@ fn pick_tol(rng: &mut Rng) -> Option<f64> {
         2 => Some(1e-8),
         3 => Some(1e-6),
         // a zero tolerance so small that its square underflows
-        4 => Some(*rng.pick(&[1e-170, 1e-200, 1e-300])),
+        // ... or exactly zero (accepted by set_tolerance/with_tolerance: "nothing but an exact zero is
+        // negligible"; D41: an exactly cancelled leading term was then never dropped and divide did not return)
+        4 => Some(*rng.pick(&[1e-170, 1e-200, 1e-300, 0.0, 0.0])),
         _ => None,
     }
 }
@@ -480,6 +489,21 @@ fn fixed_cases() -> Vec<DivCase> {
         mk(true, Kind::General, vec![c(1.0, 0.0), c(0.0, 1.0), c(2.0, 2.0), c(-1.0, 0.5)], vec![c(1.0, -1.0), c(0.0, 0.5)], vec![]),
         mk(true, Kind::General, vec![c(1.0, 0.0), c(0.0, 1.0), c(2.0, 2.0), c(-1.0, 0.5)], vec![c(1.0, -1.0), c(0.25, 0.0)], vec![]),
     ];
+    // D41: the same with a zero tolerance of exactly 0 on the dividend: (x^2 - 1)/(x + 1), a general
+    // division, a constant and a zero divisor
+    for complex in [false, true] {
+        let z = |mut d: DivCase| {
+            d.tol_a = Some(0.0);
+            d.shape = "fixed, dividend tolerance 0".into();
+            d
+        };
+        v.push(z(mk(complex, Kind::ExactMultiple, r(&[-1.0, 0.0, 1.0]), r(&[1.0, 1.0]), r(&[-1.0, 1.0]))));
+        v.push(z(mk(complex, Kind::ExactMultiple, r(&[-6.0, 11.0, -6.0, 1.0]), r(&[-1.0, 1.0]), r(&[6.0, -5.0, 1.0]))));
+        v.push(z(mk(complex, Kind::General, r(&[2.3, 0.9, -1.7, 0.3]), r(&[1.3, 0.7]), vec![])));
+        v.push(z(mk(complex, Kind::ConstDivisor, r(&[1.0, 2.0, 3.0]), r(&[4.0]), vec![])));
+        v.push(z(mk(complex, Kind::ZeroDivisor(1), r(&[1.0, -2.0, 0.0, 4.0]), r(&[0.0]), vec![])));
+        v.push(z(mk(complex, Kind::ZeroDivisor(5), r(&[1.0, -2.0, 0.0, 4.0]), r(&[0.0]), vec![])));
+    }
     for complex in [false, true] {
         for f in 0..ZERO_FORMS.len() {
             v.push(mk(complex, Kind::ZeroDivisor(f), r(&[1.0, -2.0, 0.0, 4.0]), r(&[0.0]), vec![]));
@@ -547,6 +571,7 @@ pub fn thresholds(ctx: &Ctx, rep: &Report) -> Vec<Threshold> {
         t.push(Threshold { what: format!("divisions by the zero polynomial ({})", fld), required: q(100.0, 3_000.0), observed: rep.counter(&format!("zero-polynomial/{}", fld)) as f64 });
     }
     t.push(Threshold { what: "exact multiples with a well-conditioned remainder map (kappa <= 10), where 'zero remainder' is sharp".into(), required: q(200.0, 8_000.0), observed: rep.counter("exact_multiple/kappa<=10") as f64 });
+    t.push(Threshold { what: "divisions whose dividend carries the zero tolerance 0.0".into(), required: q(400.0, 4_000.0), observed: rep.counter("dividends_with_zero_tolerance_exactly_0") as f64 });
     t.push(Threshold { what: "divisions by the zero polynomial answered with Err".into(), required: q(200.0, 6_000.0), observed: rep.counter("zero-divisor/err_returned") as f64 });
     t
 }
